@@ -436,9 +436,15 @@ func c15Session(c *runCtx, r *rng, gb string, n int) {
 	c.nontrivial(strings.Join(log, "|"))
 	// wipe leaves the host alone too (the fsck, clone and gc above were the harness's doing)
 	snapA, snapB, snapO = hostSnapshot(w.a, false), hostSnapshot(w.b, false), hostSnapshot(w.origin, true)
-	act(w.b, "wipe")
+	wout, werr := act(w.b, "wipe")
 	if out, _ := gitIn(w.b, "for-each-ref", "--format=%(refname)"); strings.Contains(out, "refs/bugs/") || strings.Contains(out, "refs/identities/") {
-		c.violation(c.nCases, "C15/wipe-left-refs", "refs of git-bug remain after wipe", nil)
+		var left []string
+		for _, l := range strings.Split(out, "\n") {
+			if isGitBugRefName(l) {
+				left = append(left, l)
+			}
+		}
+		c.violation(c.nCases, "C15/wipe-left-refs", fmt.Sprintf("refs of git-bug remain after wipe: %v; wipe said (err=%v): %s (session %v)", left, werr, trunc(wout, 300), log), nil)
 	}
 }
 
